@@ -504,6 +504,42 @@ def listener(ctx: Any) -> List[Ob]:
     for nm, what in (('stop', 'stops the query scheduler'), ('async_remove_listener', 'removes its record listener'), ('cancel', 'cancels its start-up task')):
         w = cg_.must_pass_before_exit(cg_.entry, lambda n, nm=nm: any(call_name(x) == nm for x in n.calls()))
         obs.append(ob(R, g, f'.{nm}()', f'cancelling a browser {what} on every path', w is None, '', [x.text() for x in w] if w else None))
+    # the asyncio front-end reaches that routine for every browser it created: closing removes all service listeners, removing
+    # all removes each one still registered, removing one cancels its browser (and forgets it), and the browser's async cancel
+    # is the cancel routine above -- a link that does nothing leaves browsers listening and querying after async_close
+    az = prog.cls('zeroconf.asyncio.AsyncZeroconf')
+    ab = prog.cls('zeroconf.asyncio.AsyncServiceBrowser')
+    chain = [
+        (az.methods.get('async_close'), 'async_remove_all_service_listeners', 'closing removes every service listener'),
+        (az.methods.get('async_remove_all_service_listeners'), 'async_remove_service_listener', 'removing all listeners removes each'),
+        (ab.methods.get('async_cancel'), '_async_cancel', 'the browser\'s async cancel runs the cancel routine'),
+    ]
+    for fm, callee, what in chain:
+        if fm is None:
+            raise AnalysisError(f'anchor vanished: the asyncio routine that calls {callee}')
+        fcfg = cfg_of(fm.node)
+        hits = [n for n in fcfg.nodes if any(call_name(x) == callee for e in n.exprs() for x in ast.walk(e) if isinstance(x, ast.Call))]
+        byp_c = fcfg.must_pass_before_exit(fcfg.entry, lambda n: n in hits) if hits else [fcfg.entry]
+        obs.append(ob(R, fm, hits[0].ast if hits else callee, f'{what} (on every path)', bool(hits) and byp_c is None))
+    ra_ = az.methods.get('async_remove_all_service_listeners')
+    whole_ = ra_ is not None and any(isinstance(g_, ast.comprehension) and not g_.ifs and any(self_attr(x, ra_.params[0]) == 'async_browsers' for x in ast.walk(g_.iter)) for g_ in ast.walk(ra_.node))
+    obs.append(ob(R, ra_, 'for listener in list(self.async_browsers)', 'every browser still registered is visited (a snapshot of all keys, no filter)', bool(whole_)))
+    rs_ = az.methods.get('async_remove_service_listener')
+    if rs_ is None:
+        raise AnalysisError('anchor vanished: AsyncZeroconf.async_remove_service_listener')
+    for present in (True, False):
+        mem_ = {norm(n_): (present if isinstance(n_.ops[0], ast.In) else not present) for n_ in ast.walk(rs_.node) if isinstance(n_, ast.Compare) and len(n_.ops) == 1 and isinstance(n_.ops[0], (ast.In, ast.NotIn))}
+
+        def eff_rs(node: Any, evl: Any) -> List[Any]:
+            out = ['CANCEL' for e in node.exprs() for x in ast.walk(e) if isinstance(x, ast.Call) and call_name(x) == 'async_cancel']
+            if node.kind == 'stmt' and isinstance(node.ast, ast.Delete):
+                out.append('FORGET')
+            out += ['FORGET' for c in fd.node_calls(node, evl) if call_name(c) == 'pop']
+            return out
+
+        oc_rs, und_rs = traces(ctx, rs_, mem_, eff_rs, loop_bound=1)
+        got_rs = {tuple(sorted(x for x in strip_ret(t) if isinstance(x, str))) for t in oc_rs}
+        obs.append(ob(R, rs_, f'listener {"registered" if present else "not registered"}', 'its browser is cancelled and forgotten' if present else 'nothing happens', got_rs == ({('CANCEL', 'FORGET')} if present else {()}) and not und_rs, f'got {sorted(got_rs)}; undecided {und_rs}'))
     tb = prog.func('zeroconf._services.browser.ServiceBrowser.cancel')
     tcfg = cfg_of(tb.node)
     wj = tcfg.must_pass_before_exit(tcfg.entry, lambda n: any(call_name(x) == 'join' and isinstance(x.func, ast.Attribute) and self_attr(x.func, tb.params[0]) for x in n.calls()))
